@@ -10,5 +10,7 @@ verus --version >/dev/null || { echo "verus missing"; exit 1; }
     cargo test -p lumina-node --lib --offline --no-run >"$T/setup-native.log" 2>&1 ) || { echo "native build failed (witness finders unavailable)"; tail -5 "$T/setup-native.log"; }
 ( cd /repo && RUSTFLAGS='--cfg lumina_verif' LUMINA_VERIF_DIR=/verif CARGO_TARGET_DIR=$T/native-v \
     cargo test -p celestia-types --features test-utils --lib --offline --no-run >>"$T/setup-native.log" 2>&1 ) || echo "native build of celestia-types failed"
+( cd /repo && RUSTFLAGS='--cfg lumina_verif' LUMINA_VERIF_DIR=/verif CARGO_TARGET_DIR=$T/native-v \
+    cargo test -p celestia-grpc --lib --offline --no-run >>"$T/setup-native.log" 2>&1 ) || echo "native build of celestia-grpc failed"
 if [ -x /verif/kani/prebuild.sh ]; then /verif/kani/prebuild.sh || echo "kani prebuild failed"; fi
 echo "setup done"
